@@ -11,6 +11,10 @@
 pub assume_specification<T> [std::mem::replace] (dest: &mut T, src: T) -> (r: T)
     ensures r == *old(dest), *final(dest) == src;
 
+/// `impl<T> From<T> for T` (core): the identity - reached through `?` when the error type already matches
+pub assume_specification<T> [<T as std::convert::From<T>>::from] (t: T) -> (r: T)
+    ensures r == t;
+
 #[verifier::external_type_specification]
 #[verifier::external_body]
 pub struct ExIoError(std::io::Error);
@@ -19,8 +23,8 @@ pub struct ExIoError(std::io::Error);
 #[verifier::external_body]
 pub struct BoxError { _p: PhantomData<u8> }
 
-/// `http_body::Body` (marker bound only)
-pub trait Body {}
+/// `http_body::Body` (used as a bound only)
+pub trait Body { type Data; type Error; }
 
 // ---- tracing ----
 impl tracing::Span {
